@@ -239,6 +239,84 @@ class Discharger:
         self.choke_ok = all(f.name == ap.name for f, b, t in fb.call_sites(lambda t: callee(t) in (asp.name, bpa.name)))
         ctx.extra_cov["arity_precondition"] = self.arity_ok and self.choke_ok
         self.counts = {}
+        # functions that may (transitively, over the over-approximated call graph) take a RefCell borrow: holding a guard
+        # across a call to one of them can panic with BorrowError / BorrowMutError
+        g = {k: set(v) for k, v in fb.call_graph("lib").items()}
+        names = sorted(f.name for f in fb.all("lib"))
+        for n in names:                       # closures / nested items run when their parent runs
+            for m in names:
+                if m.startswith(n + "::"):
+                    g.setdefault(n, set()).add(m)
+        meths = {}
+        for n in names:
+            if n.startswith("<") or "<impl " in n:
+                meths.setdefault(n.rsplit("::", 1)[-1], set()).add(n)
+        # unresolved trait-method calls inside a generic function G: a local impl `<S as Trait>::m` is a possible target
+        # only if G is somewhere instantiated with S (S named in the generics / argument types of a call of G, or in G's
+        # own self type)
+        inst_txt = {}
+        for f in fb.all():
+            for _, t in f.calls():
+                c = callee(t)
+                if c:
+                    fn = t.get("fn") or {}
+                    inst_txt[c] = inst_txt.get(c, "") + " " + " ".join(fn.get("generics", []) or []) + " " + " ".join(t.get("argtys", []) or [])
+        byname = {f.name: f for f in fb.all("lib")}
+        for f in fb.all("lib"):
+            for _, t in f.calls():
+                fn = t.get("fn")
+                if fn and fn.get("resolved") is None:
+                    owner = f.name.split("::{closure")[0]
+                    txt = inst_txt.get(owner, "") + " " + (mir.norm(f.self_ty) if f.self_ty else "") + " " + " ".join(t.get("argtys", []) or [])
+                    for cand in meths.get(mir.norm(fn["def"]).rsplit("::", 1)[-1], ()):
+                        cf = byname[cand]
+                        base = mir.norm(cf.self_ty).split("<")[0] if cf.self_ty else None
+                        if base is None or base in txt or base.rsplit("::", 1)[-1] + "<" in txt:
+                            g.setdefault(f.name, set()).add(cand)
+        # calls through fn pointers: any local fn item whose address is taken and whose first parameter type fits
+        taken = set()
+        for f in fb.all("lib"):
+            direct = {callee(t) for _, t in f.calls()}
+            taken |= {x for x in g.get(f.name, ()) if x not in direct and "{closure" not in x and not x.startswith(f.name + "::")}
+        self.indirect_targets = {}
+        for f in fb.all("lib"):
+            for _, t in f.calls():
+                if t.get("fn") is None:
+                    fty = t.get("fty") or ""
+                    params = fty[fty.find("(") + 1:]
+                    tg = {x for x in taken if byname[x].arg_count == len(t["args"]) and
+                          (byname[x].arg_count == 0 or (byname[x].local_ty(1) or "?").replace("'_ ", "").replace("'a ", "") in params.replace("'a ", ""))}
+                    g.setdefault(f.name, set()).update(tg)
+                    self.indirect_targets[f.name] = len(tg)
+        # builtin bodies (fn pointers and boxed closures) are invoked by BuiltinProcedureBody::apply: the registration table
+        g.setdefault(bpa.name, set()).update(k for k in self.reg_by_target if k in byname)
+        rev = {}
+        for k, vs in g.items():
+            for v in vs:
+                rev.setdefault(v, set()).add(k)
+
+        def closure(seed):
+            seen, st = set(), list(seed)
+            while st:
+                x = st.pop()
+                if x in seen:
+                    continue
+                seen.add(x)
+                st.extend(rev.get(x, ()))
+            return seen
+        mut_sites = {f.name for f in fb.all("lib") for _, t in f.calls() if (callee(t) or "").endswith("RefCell::borrow_mut")}
+        any_sites = {f.name for f in fb.all("lib") for _, t in f.calls() if callee(t) in BORROWS}
+        self.may_borrow_mut = closure(mut_sites)
+        self.may_borrow = closure(any_sites)
+
+    def reborrows(self, tt, mutable_guard):
+        """can this call take a borrow that conflicts with a live guard (shared guard: a mutable borrow; mutable guard: any)?"""
+        c = callee(tt) or ""
+        if tt.get("fn") is None:
+            return "<indirect call>"
+        if c in (self.may_borrow if mutable_guard else self.may_borrow_mut):
+            return c
+        return None
 
     # -------------------------------------------------------------- dispatcher
     def discharge(self, f, b, t, kind, what):
@@ -649,10 +727,12 @@ class Discharger:
         holders = {l for l in range(len(f.locals)) if guard in p.taint_reach(l) and is_guard_ty(f.local_ty(l))} | {guard}
         # live region: from the borrow to the drop of every holder (or function exit)
         drops = {bb for bb, blk in enumerate(f.blocks) if blk["term"]["k"] == "drop" and blk["term"]["place"]["local"] in holders}
+        drops |= consumed_by_value(f, holders)
+        empties = empty_arms(f, holders)
         start = t.get("target")
         if start is None:
             return (True, "D-guard-liveness", "diverges")
-        region = f.reachable(start, avoid=drops) | drops
+        region = (f.reachable(start, avoid=drops | empties) - empties) | drops
         DANGER = (ITP + "eval_expression", ITP + "apply_procedure", ITP + "eval_procedure_call", ITP + "apply_scheme_procedure",
                   ITP + "eval_tail_expression", "values::BuiltinProcedureBody::apply")
         risky = []
@@ -662,6 +742,9 @@ class Discharger:
                 continue
             if c in DANGER or tt.get("fn") is None:
                 risky.append(c or "<indirect call>")
+            elif self.reborrows(tt, mutable) and not (f.name.startswith("environment::LexicalScope::") and c == f.name) \
+                    and not c.startswith("environment::LexicalScope::") and c not in BORROWS:
+                risky.append(c)
             if c in ("environment::LexicalScope::define", "environment::LexicalScope::set", "environment::LexicalScope::get_mut") or \
                     (mutable and c in ("environment::LexicalScope::get",)) or c in BORROWS and bb != b and mutable:
                 # the recursive parent call of LexicalScope::set / get / get_mut is on a different cell (the parent frame)
@@ -693,18 +776,59 @@ class Discharger:
             p = Prov(g)
             holders = {l for l in range(len(g.locals)) if guard in p.taint_reach(l) and is_guard_ty(g.local_ty(l))} | {guard}
             drops = {x for x, blk in enumerate(g.blocks) if blk["term"]["k"] == "drop" and blk["term"]["place"]["local"] in holders}
+            drops |= consumed_by_value(g, holders)
+            empties = empty_arms(g, holders)
             if tt.get("target") is None:
                 continue
-            region = g.reachable(tt["target"], avoid=drops)
+            region = g.reachable(tt["target"], avoid=drops | empties) - empties
             for b2, t2 in g.calls(region):
                 c = callee(t2) or ""
-                if c in DANGER or (t2.get("fn") is None):
+                mutable = "RefMut" in (g.local_ty(guard) or "")
+                if c in DANGER or (t2.get("fn") is None) or (self.reborrows(t2, mutable) and not
+                                                               (g.name.startswith("environment::LexicalScope::") and c == g.name)):
                     return (False, "%s holds the guard returned by %s across %s" % (g.name, f.name, c or "an indirect call"))
             if 0 in holders and g.name not in ("environment::LexicalScope::get", "environment::LexicalScope::get_mut"):
                 ok, why = self._returned_guard_users(g)
                 if not ok:
                     return (ok, why)
         return (True, "")
+
+
+def empty_arms(f, holders):
+    """targets of `match holder { None => .. }` / `Err(_) => ..` arms: the holder carries no guard there"""
+    out = set()
+    preds = f.preds()
+    for sb, place, adt, targets, other in mir.discriminant_switches(f):
+        if place["local"] not in holders or place["proj"]:
+            continue
+        ty = f.local_ty(place["local"]) or ""
+        empty = None
+        if ty.startswith("std::option::Option<"):
+            empty = 0
+        elif ty.startswith("std::result::Result<") and not is_guard_ty(ty.rsplit(",", 1)[-1]):
+            empty = 1
+        if empty is None:
+            continue
+        tgt = targets.get(empty)
+        if tgt is None and (1 - empty) in targets and other is not None and other != targets[1 - empty]:
+            tgt = other
+        if tgt is not None and len(preds[tgt]) == 1:
+            out.add(tgt)
+    return out
+
+
+def consumed_by_value(f, holders):
+    """blocks whose call takes a guard holder by value and gives no guard back (mem::drop(guard), a consuming method)"""
+    out = set()
+    for b, t in f.calls():
+        if f.blocks[b]["cleanup"]:
+            continue
+        for a in t["args"]:
+            if a.get("k") == "move" and not a["place"]["proj"] and a["place"]["local"] in holders \
+                    and not (f.local_ty(a["place"]["local"]) or "&").startswith("&") \
+                    and not is_guard_ty(f.local_ty(t["dest"]["local"]) or ""):
+                out.add(b)
+    return out
 
 
 def is_guard_ty(ty):
